@@ -595,6 +595,9 @@ func registerIntrinsics(e *Engine) {
 	r["strings.Replace"] = func(e *Engine, fr *frame, args []Value, site ssa.CallInstruction) Value {
 		return strings.Replace(mustStr(e, args[0], "Replace"), mustStr(e, args[1], "Replace"), mustStr(e, args[2], "Replace"), asInt(args[3]))
 	}
+	r["strings.Count"] = func(e *Engine, fr *frame, args []Value, site ssa.CallInstruction) Value {
+		return int64(strings.Count(mustStr(e, args[0], "Count"), mustStr(e, args[1], "Count")))
+	}
 	r["strings.Repeat"] = func(e *Engine, fr *frame, args []Value, site ssa.CallInstruction) Value {
 		return strings.Repeat(mustStr(e, args[0], "Repeat"), asInt(args[1]))
 	}
